@@ -96,9 +96,14 @@ def walk (fs : Fs) : Path → List Name → Loc
       | some .dir => walk fs (cur ++ [c]) rest
       | some (.file b) => if rest = [] then .found (cur ++ [c]) (.file b) else .err .notdir
 
+/-- absolute paths start at the (scratch) root, relative ones at the working directory, which
+must still be a directory (a removed working directory resolves nothing; the scripts never
+remove it) -/
 def resolve (fs : Fs) (cwd : Path) (s : String) : Loc :=
   if s = "" then .err .noent
-  else walk fs (if isAbs s then [] else cwd) (comps s)
+  else if isAbs s then walk fs [] (comps s)
+  else if get fs cwd = some .dir then walk fs cwd (comps s)
+  else .err .noent
 
 /-! ## system calls -/
 
